@@ -131,3 +131,30 @@ Fixpoint umask_wf (m : umask) : Prop :=
 (* some level of the chain has no coverage of its mask rectangle at this pixel *)
 Fixpoint umask_outside (m : umask) : Prop :=
   match m with UMask _ _ _ _ _ rc n => rc = 0 \/ match n with Some k => umask_outside k | None => False end end.
+
+(* ------------------------------------------------------------------ second pass: group opacity, exact binary32.
+   render_group draws the layer with PixmapPaint { opacity: group.opacity().get(), quality: Nearest } (source-derived flag
+   group_paint_is_opacity_nearest).  tiny-skia runs this on its highp pipeline (the pattern `gather` stage has no lowp version):
+   load_8888 `c as f32 * (1.0 / 255.0)`, scale_1_float `* opacity`, source_over onto the destination, store_8888 =
+   unnorm = round-to-nearest-even of clamp(v, 0, 1) * 255.  Compared with the real crate on all 256 x 256 (channel, opacity
+   byte) pairs plus random f32 opacities, destination transparent. *)
+Definition ts_factor : f32 := fdiv (flit 1 1) (flit 255 1).
+Definition round_ne_u8 (x : f32) : Z :=
+  match x with
+  | B754_finite false m e _ =>
+      match e with
+      | Zneg p =>
+          let q := Z.shiftr (Zpos m) (Zpos p) in
+          let r := Zpos m - Z.shiftl q (Zpos p) in
+          let h := Z.shiftl 1 (Zpos p - 1) in
+          if h <? r then q + 1 else if r =? h then (if Z.even q then q else q + 1) else q
+      | _ => trunc_me m e
+      end
+  | _ => 0
+  end.
+Definition ts_unnorm (v : f32) : Z :=
+  let lo := if flt v fzero then fzero else v in                 (* v.max(0) *)
+  let cl := if fgt lo (flit 1 1) then flit 1 1 else lo in       (* .min(1) *)
+  round_ne_u8 (fmul cl (flit 255 1)).
+Definition opacity_u8 (c : Z) (o : f32) : Z := ts_unnorm (fmul (fmul (of_Z c) ts_factor) o).
+Definition opacity_of_byte (k : Z) : f32 := fdiv (of_Z k) (flit 255 1).
